@@ -171,6 +171,8 @@ type scenarioRunner struct {
 	reps int
 	// small reports whether a scenario is small enough for the preemption-bounded enumeration of its schedules
 	small func(sc any) bool
+	// program turns one TLC-generated behaviour (a JSON list of call records) into a scenario
+	program func(b []byte) any
 }
 
 func runDriver(sr scenarioRunner, args map[string]string) {
@@ -232,10 +234,27 @@ func runDriver(sr scenarioRunner, args map[string]string) {
 	if mode == "c" && sr.reps > 0 {
 		reps = sr.reps
 	}
+	// -programs FILE: replay TLC-generated behaviours (one JSON list per line), one execution each
+	var programs [][]byte
+	if pf := args["programs"]; pf != "" && sr.program != nil {
+		b, err := os.ReadFile(pf)
+		if err != nil {
+			fatalf("%v", err)
+		}
+		for _, ln := range strings.Split(string(b), "\n") {
+			if strings.TrimSpace(ln) != "" {
+				programs = append(programs, []byte(ln))
+			}
+		}
+		n, reps = len(programs), 1
+	}
 	for i := 0; i < n && st.Stuck < 12; i++ { // a dozen executions whose calls never returned are evidence enough
 		sc := sr.gen(rng, profile, mode)
 		if fixed != nil {
 			sc = fixed
+		}
+		if programs != nil {
+			sc = sr.program(programs[i])
 		}
 		eseed := rng.Int63()
 		nreps := reps
